@@ -147,7 +147,8 @@ impl RouterSocket {
           .ingress_engine
           .recv_logical_message(Some(Duration::ZERO))
           .await?;
-        if self.pipe_finalized.contains_key(&pid) {
+        // Deliver directly only if nothing older is still held (a finalize may race with this pop).
+        if self.pipe_finalized.contains_key(&pid) && self.held_count.load(Ordering::Acquire) == 0 {
           return Ok((pid, batch));
         }
         // Pending: buffer it and re-loop; if nothing else is ready the next
@@ -175,7 +176,8 @@ impl RouterSocket {
         }
         popped = self.ingress_engine.pop() => {
           let (pid, batch) = popped?;
-          if self.pipe_finalized.contains_key(&pid) {
+          // Deliver directly only if nothing older is still held (a finalize may race with this pop).
+          if self.pipe_finalized.contains_key(&pid) && self.held_count.load(Ordering::Acquire) == 0 {
             return Ok((pid, batch));
           }
           self.hold_pending_batch(pid, batch);
